@@ -45,6 +45,7 @@ type Hooks struct {
 type Config struct {
 	K         int
 	MaxDepth  int
+	MaxInline int
 	TableLens map[string]int64    // global slice name → length
 	TableRng  map[string][2]int64 // global int table → value range
 	TableVals map[string][]int64  // global byte/int table → contents (from E2)
@@ -114,6 +115,9 @@ func NewEngine(p *core.Program, cfg Config) *Engine {
 	}
 	if cfg.MaxDepth == 0 {
 		cfg.MaxDepth = 14
+	}
+	if cfg.MaxInline == 0 {
+		cfg.MaxInline = 20000
 	}
 	return &Engine{P: p, Cfg: cfg, LP: NewLP(), symIntern: map[string]Sym{}, frameIDs: map[string]int{}, joinSyms: map[string]Sym{}, byteOrig: map[Sym]ByteV{}, Obs: map[string]*Ob{}, logging: true, Pinned: map[Sym]bool{}}
 }
